@@ -134,7 +134,7 @@ Proof. destruct raw as [[mtu hrr] fls]. reflexivity. Qed.
 Definition is_nil {A} (l : list A) : bool := match l with [] => true | _ => false end.
 
 Lemma fadd_nonnil f l : l <> [] -> fadd f l <> [].
-Proof. unfold fadd. destruct (fmem f l); [auto|]. destruct l; [congruence | discriminate]. Qed.
+Proof. intros _. destruct l as [|g l]; cbn [fadd]; [discriminate|]. repeat dif; discriminate. Qed.
 
 Lemma fadd_all_nonnil fs : forall l, l <> [] -> fadd_all fs l <> [].
 Proof.
@@ -633,3 +633,318 @@ Proof.
 Qed.
 
 Open Scope N_scope.
+
+(* ---------- the HelloRetryRequest exchange (C13, DTLS 1.3) ---------- *)
+
+Definition is_hrr (r : rec) : bool :=
+  match r_body r with Hs ht _ _ _ _ => N.eqb ht HT_HRR && N.eqb (r_ep r) 0 | Ack _ => false end.
+Definition all_hrr (out : list dgram) : Prop := forall d r, In d out -> In r d -> is_hrr r = true.
+
+Lemma pack_aux_incl mtu : forall rs cur sz d r,
+  In d (pack_aux mtu cur sz rs) -> In r d -> In r cur \/ In r rs.
+Proof.
+  induction rs as [|x rs IH]; intros cur sz d r Hd Hr; cbn [pack_aux] in Hd.
+  - destruct cur as [|y cur]; [destruct Hd|]. destruct Hd as [<- | []]. left. now apply in_rev.
+  - destruct (_ && _).
+    + destruct Hd as [<- | Hd]; [left; now apply in_rev|].
+      destruct (IH _ _ _ _ Hd Hr) as [[<- | []] | H]; right; [now left | now right].
+    + destruct (IH _ _ _ _ Hd Hr) as [[<- | H] | H]; [right; now left | now left | right; now right].
+Qed.
+
+Lemma pack_incl c rs d r : In d (pack c rs) -> In r d -> In r rs.
+Proof. unfold pack. intros Hd Hr. destruct (pack_aux_incl _ _ _ _ _ _ Hd Hr) as [[] | H]. exact H. Qed.
+
+(* the receive path while no protected record can be opened *)
+Definition same_rx0 (a b : ep) : Prop :=
+  e_repoch a = e_repoch b /\ e_toack a = e_toack b /\ e_lepoch a = e_lepoch b /\ e_recvseq a = e_recvseq b.
+
+Lemma same_rx0_refl a : same_rx0 a a. Proof. unfold same_rx0; auto. Qed.
+Lemma same_rx0_trans a b c : same_rx0 a b -> same_rx0 b c -> same_rx0 a c.
+Proof. unfold same_rx0. intros (?&?&?&?) (?&?&?&?). repeat split; congruence. Qed.
+
+Lemma same_rx0_pop_all fuel : forall e, same_rx0 e (pop_all fuel e).
+Proof.
+  induction fuel as [|fuel IH]; intro e; cbn [pop_all]; [apply same_rx0_refl|].
+  destruct (complete (e_fbcur e) (e_frags e)) as [[ht ep0]|]; [|apply same_rx0_refl].
+  eapply same_rx0_trans; [|apply IH]. unfold same_rx0; cbn; auto.
+Qed.
+
+Lemma same_rx0_fb_advance e : same_rx0 e (fb_advance e).
+Proof. unfold fb_advance. dif; [unfold same_rx0; cbn; auto | apply same_rx0_refl]. Qed.
+
+Lemma same_rx0_push e f : same_rx0 e (fst (push e f)).
+Proof.
+  unfold push. destruct f as [[[[[m ht] foff] fl] tl] ep0].
+  destruct (m <? e_fbcur (fb_advance e)); cbn [fst]; [apply same_rx0_fb_advance|].
+  destruct (_ && _); cbn [fst]; [apply same_rx0_fb_advance|].
+  eapply same_rx0_trans; [apply same_rx0_fb_advance|].
+  eapply same_rx0_trans; [|apply same_rx0_pop_all]. unfold same_rx0; cbn; auto.
+Qed.
+
+Lemma same_rx0_enqueue l e r : same_rx0 e (enqueue l e r).
+Proof. unfold enqueue. dif; [unfold same_rx0; cbn; auto | apply same_rx0_refl]. Qed.
+
+Lemma process_record_rx0 l e r :
+  e_repoch e = 0 ->
+  same_rx0 e (fst (fst (fst (process_record l e r)))) /\ snd (process_record l e r) = None.
+Proof.
+  intro H0. unfold process_record.
+  destruct (N.eqb (r_ep r) 0 && e_est e); cbn [fst snd]; [split; [apply same_rx0_refl | reflexivity]|].
+  unfold can_open. rewrite H0. cbn [N.leb N.compare andb]. rewrite orb_false_r.
+  destruct (N.eqb (r_ep r) 0) eqn:E0.
+  - apply N.eqb_eq in E0. rewrite E0. destruct (r_body r) as [ht m fo fl tl | fs].
+    + pose proof (same_rx0_push e (m, ht, fo, fl, tl, 0)) as H.
+      destruct (push e (m, ht, fo, fl, tl, 0)) as [e1 retr]. cbn [fst] in H.
+      cbn [N.leb N.compare fst snd]. split; [exact H | reflexivity].
+    + cbn. split; [apply same_rx0_refl | reflexivity].
+  - dif; cbn [fst snd]; split; try reflexivity; [apply same_rx0_enqueue | apply same_rx0_refl].
+Qed.
+
+Lemma process_records_rx0 l rs : forall e,
+  e_repoch e = 0 ->
+  same_rx0 e (fst (fst (fst (process_records l e rs)))) /\ snd (process_records l e rs) = [].
+Proof.
+  induction rs as [|r rs IH]; intros e H0; cbn [process_records]; [split; [apply same_rx0_refl | reflexivity]|].
+  destruct (process_record_rx0 l e r H0) as [H1 Hn].
+  destruct (process_record l e r) as [[[e1 h1] r1] a1]. cbn [fst snd] in *. subst a1.
+  assert (H0' : e_repoch e1 = 0) by (destruct H1 as (Hr&_); congruence).
+  destruct (IH e1 H0') as [H2 Hn2].
+  destruct (process_records l e1 rs) as [[[e2 h2] r2] a2]. cbn [fst snd] in *.
+  split; [eapply same_rx0_trans; eauto | exact Hn2].
+Qed.
+
+Lemma filter_true {A} (f : A -> bool) l : (forall x, f x = true) -> filter f l = l.
+Proof. intro H. induction l as [|x l IH]; cbn; [reflexivity|]. now rewrite H, IH. Qed.
+
+Lemma acknowledge_nil e :
+  e_pending e = [] ->
+  acknowledge e [] =
+    (set_fsm e (e_flight e) (e_fst e) (e_retr e) (e_reply e) (e_lastsent e) (e_interval e) (e_timer e)
+             (e_out e) [] (e_est e), false, false).
+Proof.
+  intro Hp. unfold acknowledge. cbn [concat existsb filter]. rewrite Hp. cbn [filter].
+  rewrite filter_true; [reflexivity|]. intro r. destruct (rec_frag r) as [[[m fo] fl]|]; reflexivity.
+Qed.
+
+Lemma do_send_server c e now :
+  e_client e = false -> N.eqb (e_flight e) F4 = false ->
+  do_send c e now =
+    (set_fsm e (e_flight e) Waiting (e_retr e) (e_reply e) now (e_interval e) (now + e_interval e) (e_out e)
+             (fadd_all (tracked_frags c (e_flight e) (e_out e)) (e_pending e)) (e_est e),
+     pack c (e_out e)).
+Proof. intros Hc Hf. unfold do_send. rewrite Hc, Hf. cbn [negb andb]. reflexivity. Qed.
+
+(* the server before it has seen a ClientHello that answers its HelloRetryRequest: in Flight 0
+   (nothing sent yet) or in Flight 2 (the HelloRetryRequest is the current, reply-only flight) *)
+Definition pre_cookie (c : cfg) (e : ep) : Prop :=
+  e_client e = false /\ e_fst e = Waiting /\ e_est e = false /\ e_repoch e = 0 /\ e_toack e = [] /\
+  e_pending e = [] /\
+  ((e_flight e = F0 /\ e_out e = [] /\ e_reply e = false) \/
+   (e_flight e = F2 /\ e_out e = fl_lookup F2 (c_fl c) /\ e_reply e = true /\ e_retr e = false /\ e_recvseq e = 1)).
+
+Definition hrr_cfg (c : cfg) : Prop :=
+  flags_cfg c /\ forallb is_hrr (fl_lookup F2 (c_fl c)) = true /\ fl_lookup F0 (c_fl c) = [].
+
+Lemma hrr_flags c : flags_cfg c ->
+  fl_retransmit c F2 = false /\ fl_retransmit c F0 = true /\ fl_last_send c F0 = false /\ fl_last_send c F2 = false /\
+  fl_last_recv c F2 = false /\ fl_last_recv c F4 = true.
+Proof.
+  unfold flags_cfg, fl_retransmit, fl_last_send, fl_last_recv. intro H. rewrite H. vm_compute. repeat split.
+Qed.
+
+Lemma all_hrr_nil : all_hrr []. Proof. intros d r []. Qed.
+
+Lemma all_hrr_pack c : hrr_cfg c -> all_hrr (pack c (fl_lookup F2 (c_fl c))).
+Proof.
+  intros (_ & H & _) d r Hd Hr. rewrite forallb_forall in H. apply H. eapply pack_incl; eauto.
+Qed.
+
+
+Lemma pre_cookie_transfer c a b : same_fsm a b -> same_rx0 a b -> pre_cookie c a -> pre_cookie c b.
+Proof.
+  intros (Hc&Hf&Hs&Hr&Hy&_&_&_&Ho&Hp&He&_) (Hre&Hta&_&Hrs) (P1&P2&P3&P4&P5&P6&P7).
+  unfold pre_cookie. rewrite <- Hc, <- Hf, <- Hs, <- Hr, <- Hy, <- Ho, <- Hp, <- He, <- Hre, <- Hta, <- Hrs. auto 10.
+Qed.
+
+Lemma pre_cookie_set_interval c e i : pre_cookie c e -> pre_cookie c (set_interval e i).
+Proof. intro H. exact H. Qed.
+
+Lemma pack_nil c : pack c [] = []. Proof. reflexivity. Qed.
+
+Lemma tracked_nil c f : tracked_frags c f [] = [].
+Proof. unfold tracked_frags. dif; reflexivity. Qed.
+
+Lemma pre_cookie_do_send c e now :
+  hrr_cfg c -> pre_cookie c e ->
+  pre_cookie c (fst (do_send c e now)) /\ all_hrr (snd (do_send c e now)).
+Proof.
+  intros Hc (P1&P2&P3&P4&P5&P6&P7).
+  destruct (hrr_flags c (proj1 Hc)) as (Hr2&_).
+  destruct P7 as [(Q1&Q2&Q3) | (Q1&Q2&Q3&Q4&Q5)].
+  - rewrite do_send_server by (rewrite ?Q1; auto). cbn [fst snd]. rewrite Q2, pack_nil. split; [|apply all_hrr_nil].
+    unfold pre_cookie. cbn. rewrite tracked_nil, P6. cbn. rewrite ?P1, ?P3, ?P4, ?P5, ?Q1, ?Q3. auto 10.
+  - rewrite do_send_server by (rewrite ?Q1; auto). cbn [fst snd]. rewrite Q2. split; [|now apply all_hrr_pack].
+    unfold pre_cookie. cbn. unfold tracked_frags. rewrite Q1, Hr2, P6. cbn.
+    repeat (split; [assumption || reflexivity|]). right. auto 10.
+Qed.
+
+Lemma pre_cookie_after_ack c e peer now :
+  hrr_cfg c -> pre_cookie c e ->
+  pre_cookie c (fst (after_ack c e false false peer now)) /\ all_hrr (snd (after_ack c e false false peer now)).
+Proof.
+  intros Hc Hp. unfold after_ack. cbn [andb orb].
+  repeat (dif; cbn [fst snd]); try (split; [exact Hp | apply all_hrr_nil]);
+    apply pre_cookie_do_send; auto.
+Qed.
+
+Lemma enter_flight c e f now : e_client e = false -> e_flight (fst (enter c e f now)) = f.
+Proof.
+  intro Hc. unfold enter.
+  set (e0 := set_fsm _ _ _ _ _ _ _ _ _ _ _).
+  destruct (do_send_shape c e0 now) as (e3 & Hs & Heq). rewrite Heq.
+  replace (e_client e0) with false by (subst e0; cbn; congruence). cbn [andb fst].
+  destruct Hs as (_&Hf&_). rewrite Hf. reflexivity.
+Qed.
+
+(* C13 (DTLS 1.3): until the server has a complete ClientHello that follows its HelloRetryRequest,
+   whatever datagram arrives it emits nothing but HelloRetryRequest records (or moves to Flight 4,
+   which it does only by consuming that ClientHello: see [server_leaves_hrr]) *)
+Theorem pre_cookie_event c e (retr : bool) now :
+  hrr_cfg c -> pre_cookie c e ->
+  let r := on_event c e true retr [] [] now in
+  (pre_cookie c (fst r) /\ all_hrr (snd r)) \/ e_flight (fst r) = F4.
+Proof.
+  intros Hc Hp. pose proof Hp as (P1&P2&P3&P4&P5&P6&P7).
+  destruct (hrr_flags c (proj1 Hc)) as (Hr2&Hr0&Hs0&Hs2&Hl2&Hl4).
+  unfold on_event. rewrite P2.
+  set (e1 := if retr then e else set_interval e (c_initial c)).
+  assert (Hp1 : pre_cookie c e1) by (subst e1; destruct retr; exact Hp).
+  pose proof Hp1 as (A1&A2&A3&A4&A5&A6&A7).
+  rewrite (acknowledge_nil e1 A6). cbn [negb].
+  set (e2 := set_fsm e1 _ _ _ _ _ _ _ _ _ _).
+  assert (Hp2 : pre_cookie c e2) by (subst e2; unfold pre_cookie; cbn; auto 10).
+  pose proof Hp2 as (B1&B2&B3&B4&B5&B6&B7).
+  assert (Hls : fl_last_send c (e_flight e2) = false) by (destruct B7 as [(Q&_) | (Q&_)]; rewrite Q; assumption).
+  rewrite Hls, B1. rewrite andb_false_r. cbn [andb].
+  unfold parse. rewrite B1.
+  destruct B7 as [(Q1&Q2&Q3) | (Q1&Q2&Q3&Q4&Q5)]; rewrite Q1.
+  - change (N.eqb F0 F0) with true. cbv iota.
+    destruct (has e2 0 HT_CH 0).
+    + destruct (c_hrr c).
+      * change (N.eqb F2 0) with false. cbv iota. cbn [e_client e_flight set_recvseq set_rx].
+        rewrite B1, Q1. change (N.eqb F2 F0) with false. rewrite andb_false_r. cbn [andb].
+        left. unfold enter.
+        set (e3 := set_fsm _ _ _ _ _ _ _ _ _ _ _).
+        apply pre_cookie_do_send; [exact Hc|].
+        subst e3. unfold pre_cookie. cbn. rewrite Hr2. repeat (split; [assumption || reflexivity|]). right. cbn. auto 10.
+      * right. change (N.eqb F4 0) with false. cbv iota. cbn [e_client e_flight set_recvseq set_rx].
+        rewrite B1, Q1. change (N.eqb F4 F0) with false. rewrite andb_false_r. cbn [andb].
+        apply enter_flight. exact B1.
+    + change (N.eqb 0 0) with true. cbv iota.
+      destruct (pre_cookie_after_ack c e2 retr now Hc Hp2) as [Ha Hb].
+      destruct (after_ack c e2 false false retr now) as [e4 o4]. cbn [fst snd] in *. left. split; assumption.
+  - change (N.eqb F2 F0) with false. change (N.eqb F2 F2) with true. cbv iota.
+    destruct (has e2 (e_recvseq e2) HT_CH 0).
+    + right. change (N.eqb F4 0) with false. cbv iota. cbn [e_client e_flight set_recvseq set_rx].
+      rewrite B1, Q1. change (N.eqb F4 F2) with false. rewrite andb_false_r. cbn [andb].
+      apply enter_flight. exact B1.
+    + change (N.eqb 0 0) with true. cbv iota.
+      destruct (pre_cookie_after_ack c e2 retr now Hc Hp2) as [Ha Hb].
+      destruct (after_ack c e2 false false retr now) as [e4 o4]. cbn [fst snd] in *. left. split; assumption.
+Qed.
+
+Theorem pre_cookie_datagram c e d now :
+  hrr_cfg c -> pre_cookie c e ->
+  let r := on_datagram c e d now in
+  ((pre_cookie c (fst r) /\ all_hrr (snd r)) \/ e_flight (fst r) = F4) /\
+  (snd r <> [] -> snd (fst (fst (process_records true e d))) = true).
+Proof.
+  intros Hc Hp. pose proof Hp as (P1&P2&P3&P4&P5&P6&P7).
+  unfold on_datagram.
+  pose proof (same_fsm_process_records true d e) as Hs.
+  destruct (process_records_rx0 true d e P4) as [Hx Hn].
+  destruct (process_records true e d) as [[[e1 hs] retr] acks]. cbn [fst snd] in *. subst acks.
+  pose proof (pre_cookie_transfer c e e1 Hs Hx Hp) as Hp1.
+  destruct hs; cbn [negb andb fst snd].
+  - split; [|reflexivity].
+    assert (Ht : e_toack e1 = []) by (destruct Hp1 as (_&_&_&_&Ht&_); exact Ht).
+    rewrite Ht. apply pre_cookie_event; [exact Hc|].
+    eapply pre_cookie_transfer; [apply same_fsm_set_toack | | exact Hp1].
+    unfold same_rx0; cbn. rewrite Ht. auto.
+  - split; [left; split; [exact Hp1 | apply all_hrr_nil] | congruence].
+Qed.
+
+(* C13/C17 (DTLS 1.3): in that phase the retransmission timer emits nothing: a HelloRetryRequest
+   is never sent by a timer *)
+Theorem pre_cookie_timer c e :
+  hrr_cfg c -> pre_cookie c e -> pre_cookie c (fst (on_timer c e)) /\ snd (on_timer c e) = [].
+Proof.
+  intros Hc Hp. pose proof Hp as (P1&P2&P3&P4&P5&P6&P7).
+  unfold on_timer. rewrite P2.
+  destruct (e_retr e) eqn:Er.
+  - destruct P7 as [(Q1&Q2&Q3) | (Q1&Q2&Q3&Q4&Q5)]; [|congruence].
+    destruct (pre_cookie_do_send c (set_interval e (bump c (e_interval e))) (e_timer e) Hc Hp) as [Ha _].
+    split; [exact Ha|].
+    rewrite do_send_server by (cbn; rewrite ?Q1; auto). cbn [snd set_interval set_fsm e_out]. rewrite Q2. reflexivity.
+  - cbn [fst snd]. split; [|reflexivity]. unfold pre_cookie. cbn. repeat (split; [assumption || reflexivity|]). exact P7.
+Qed.
+
+(* the server leaves the HelloRetryRequest flight only by consuming a complete ClientHello whose
+   message_seq follows the first one; it leaves Flight 0 only by consuming the first ClientHello *)
+Theorem server_leaves_hrr c e :
+  e_client e = false -> e_flight e = F2 -> snd (parse c e) <> 0 ->
+  has e (e_recvseq e) HT_CH 0 = true /\ snd (parse c e) = F4.
+Proof.
+  intros Hc Hf. unfold parse. rewrite Hc, Hf.
+  change (N.eqb F2 F0) with false. change (N.eqb F2 F2) with true. cbv iota.
+  destruct (has e (e_recvseq e) HT_CH 0); cbn [snd]; [auto | congruence].
+Qed.
+
+Theorem server_leaves_flight0 c e :
+  e_client e = false -> e_flight e = F0 -> snd (parse c e) <> 0 ->
+  has e 0 HT_CH 0 = true /\ snd (parse c e) = if c_hrr c then F2 else F4.
+Proof.
+  intros Hc Hf. unfold parse. rewrite Hc, Hf. change (N.eqb F0 F0) with true. cbv iota.
+  destruct (has e 0 HT_CH 0); cbn [snd]; [auto | congruence].
+Qed.
+
+Lemma server_start_pre_cookie c :
+  hrr_cfg c -> pre_cookie c (ep_init c false) /\ snd (ep_start c false) = [].
+Proof.
+  intros Hc. destruct Hc as (Hfl & Hh & H0). unfold ep_init, ep_start, enter. rewrite H0.
+  rewrite do_send_server by reflexivity. cbn [fst snd]. split; [|reflexivity].
+  destruct (hrr_flags c Hfl) as (_ & Hr0 & _).
+  unfold pre_cookie. cbn. rewrite tracked_nil, Hr0. cbn. auto 10.
+Qed.
+
+(* over whole histories of the server: any inputs (datagrams of arbitrary content, timer expiries);
+   as long as the server has not moved to Flight 4 every step's output is HelloRetryRequest records
+   only, and a timer step emits nothing *)
+Theorem hrr_discipline c ins : hrr_cfg c -> forall e,
+  pre_cookie c e ->
+  Forall (fun p => all_hrr (snd p) /\ (fst p = ITimer -> snd p = [])) (snd (run c e ins)) \/
+  exists ins1 i ins2 e1, ins = ins1 ++ i :: ins2 /\ i <> ITimer /\
+    Forall (fun p => all_hrr (snd p) /\ (fst p = ITimer -> snd p = [])) (snd (run c e ins1)) /\
+    e1 = fst (run c e ins1) /\ pre_cookie c e1 /\ e_flight (fst (step c e1 i)) = F4.
+Proof.
+  intro Hc. induction ins as [|i ins IH]; intros e Hp; [left; constructor|].
+  destruct i as [d now|].
+  - destruct (pre_cookie_datagram c e d now Hc Hp) as [[[Ha Hb] | H4] _].
+    + destruct (IH _ Ha) as [Hall | (ins1 & i & ins2 & e1 & He & Hi & Hall & He1 & Hp1 & H4)].
+      * left. cbn [run step]. destruct (on_datagram c e d now) as [e' o]. cbn [fst snd] in *.
+        destruct (run c e' ins) as [e2 tr]. cbn [snd] in *. constructor; [split; [exact Hb | discriminate] | exact Hall].
+      * right. exists (IDgram d now :: ins1), i, ins2, e1. subst ins. split; [reflexivity|]. split; [exact Hi|].
+        cbn [run step]. destruct (on_datagram c e d now) as [e' o]. cbn [fst snd] in *.
+        destruct (run c e' ins1) as [e2 tr]. cbn [fst snd] in *.
+        split; [constructor; [split; [exact Hb | discriminate] | exact Hall]|]. auto.
+    + right. exists [], (IDgram d now), ins, e. cbn [run fst snd app]. split; [reflexivity|].
+      split; [discriminate|]. split; [constructor|]. auto.
+  - destruct (pre_cookie_timer c e Hc Hp) as [Ha Hb].
+    destruct (IH _ Ha) as [Hall | (ins1 & i & ins2 & e1 & He & Hi & Hall & He1 & Hp1 & H4)].
+    + left. cbn [run step]. destruct (on_timer c e) as [e' o]. cbn [fst snd] in *. subst o.
+      destruct (run c e' ins) as [e2 tr]. cbn [snd] in *. constructor; [split; [apply all_hrr_nil | reflexivity] | exact Hall].
+    + right. exists (ITimer :: ins1), i, ins2, e1. subst ins. split; [reflexivity|]. split; [exact Hi|].
+      cbn [run step]. destruct (on_timer c e) as [e' o]. cbn [fst snd] in *. subst o.
+      destruct (run c e' ins1) as [e2 tr]. cbn [fst snd] in *.
+      split; [constructor; [split; [apply all_hrr_nil | reflexivity] | exact Hall]|]. auto.
+Qed.
